@@ -39,6 +39,7 @@ type InheritCfg struct {
 	LoopBlock bool `json:"loop_block,omitempty"` // root renders block b inside a loop
 	BlockFn   bool `json:"block_fn,omitempty"`   // root prints block('a') a second time
 	Outside   bool `json:"outside,omitempty"`    // children have content outside blocks
+	NestOver  bool `json:"nest_over,omitempty"`  // overriding blocks contain a nested block (before parent() when it comes last)
 }
 
 var blockNames = []string{"a", "b", "c", "d"}
@@ -86,6 +87,9 @@ func BuildInherit(c *InheritCfg) *m.Program {
 				par := m.NPrint(&m.E{K: "parent"})
 				if mode == BParentBefore {
 					b.Body = append(b.Body, par)
+				}
+				if c.NestOver {
+					b.Body = append(b.Body, &m.N{K: "block", S: "n" + name, Body: []*m.N{m.NText(fmt.Sprintf("N%d.%s(", lvl, name)), whoCall(), m.NText(")")}})
 				}
 				b.Body = append(b.Body, m.NText(fmt.Sprintf("L%d.%s(", lvl, name)), whoCall())
 				if c.UseAt == lvl && c.UseAlias == ni {
@@ -168,6 +172,7 @@ func GenInherit(t *rapid.T) *InheritCfg {
 	c.LoopBlock = rapid.Bool().Draw(t, "loop") && c.Names >= 2
 	c.BlockFn = rapid.Bool().Draw(t, "blockfn")
 	c.Outside = rapid.Bool().Draw(t, "outside")
+	c.NestOver = rapid.Bool().Draw(t, "nestover")
 	return c
 }
 
@@ -240,6 +245,11 @@ func (g *G) incBody(idx int, withBlocks bool, depth int) []*m.N {
 }
 
 func (g *G) withHash() *m.E {
+	// sometimes the with-expression is a host variable holding a hash: the
+	// target's assignments must not reach it
+	if g.intn("withvar", 0, 3) == 0 {
+		return m.EName("hv")
+	}
 	h := &m.E{K: "hash"}
 	n := g.intn("nwith", 0, 3)
 	seen := map[string]bool{}
@@ -309,6 +319,10 @@ func (g *G) IncludeProgram() *m.Program {
 		p.Tpls = append(p.Tpls, t)
 	}
 	host := &m.Tpl{Name: "host"}
+	hv := m.Val{K: m.KHash}
+	hv.HashSet("x", m.Str("HVx"))
+	hv.HashSet("w", m.Num(7))
+	p.Ctx = append(p.Ctx, &m.CtxVar{Name: "hv", V: hv})
 	// host variables
 	for _, name := range incNames {
 		if g.flip("hostvar") {
@@ -346,7 +360,7 @@ func (g *G) IncludeProgram() *m.Program {
 			host.Body = append(host.Body, g.incStmt(nt, 0))
 		}
 		// observe the host's variables after every step
-		host.Body = append(host.Body, g.incProbe(), g.incObserve())
+		host.Body = append(host.Body, g.incProbe(), g.incObserve(), m.NPrint(m.ECall("cat", m.EName("hv"))))
 	}
 	p.Tpls = append(p.Tpls, host)
 	return p
